@@ -682,8 +682,11 @@ def _dd_factory(ctx, o):
     kind = ctx._defaultdicts.get(e.as_long())
     if kind is None:
         return None
-    return {'list': lambda ex, st: st.new_list(), 'dict': lambda ex, st: st.new_dict(),
-            'set': lambda ex, st: st.new_set()}[kind]
+    return DD_FACTORIES[kind]
+
+
+DD_FACTORIES = {'list': lambda ex, st: st.new_list(), 'dict': lambda ex, st: st.new_dict(),
+                'set': lambda ex, st: st.new_set()}
 
 
 def call_external(ex, st: State, name: str, args, kwargs, node):
